@@ -86,6 +86,43 @@ Theorem C18_recv_layout_has_room : forall (front : list rmsg) trains,
 Proof. exact real_layout_no_overflow. Qed.
 Print Assumptions C18_recv_layout_has_room.
 
+(* Glue, StdNetBind.send: whatever positive number of messages the kernel
+   accepts per sendmmsg call (partial writes, any number of times), every
+   message of the vector is handed over exactly once, in order, no error. *)
+Theorem C18_send_loop_complete : forall (msgs : list msg) (oracle : list wres),
+  Forall (fun r => match r with WOk k => (0 < k)%nat | WErr => False end) oracle ->
+  (length msgs <= length oracle)%nat ->
+  send_loop (S (length msgs)) msgs 0 oracle = (msgs, false).
+Proof.
+  intros msgs oracle H1 H2. apply (send_loop_complete (S (length msgs)) msgs 0 oracle H1); cbn [skipn]; lia.
+Qed.
+Print Assumptions C18_send_loop_complete.
+
+(* ... and under ANY behaviour of the kernel (errors, zero counts) what was
+   handed over is a prefix of the vector: nothing skipped, repeated, reordered. *)
+Theorem C18_send_loop_prefix : forall (msgs : list msg) fuel (oracle : list wres),
+  exists suffix, fst (send_loop fuel msgs 0 oracle) ++ suffix = msgs.
+Proof. intros msgs fuel oracle. exact (send_loop_prefix fuel msgs 0 oracle). Qed.
+Print Assumptions C18_send_loop_prefix.
+
+(* Glue, Send: offloads available -> disabled.  When the first (merged) attempt
+   ends with an error for which errShouldDisableUDPGSO holds, the batch is sent
+   again from the same pooled vector, one message per datagram: no message of
+   the second attempt carries UDP_SEGMENT, each is addressed to the endpoint
+   with the sticky source, its wire image is the batch; the first attempt
+   handed over a prefix of the merged vector at most. *)
+Theorem C18_gso_disable_retry_transparent : forall c bufs oracle1 oracle2,
+  len (c_src c) + conn_gsoControlSize <= c_oobcap c ->
+  Forall (fun r => match r with WOk k => (0 < k)%nat | WErr => False end) oracle2 ->
+  (length bufs <= length oracle2)%nat ->
+  let '(t1, t2, e2) := send_with_gso_disable c bufs oracle1 oracle2 in
+  e2 = false /\
+  flat_map kernel_send t2 = map b_data bufs /\
+  Forall (fun m => m_gso m = [] /\ m_oob m = c_src c /\ m_addr m = c_addr c) t2 /\
+  exists suffix, t1 ++ suffix = coalesce c bufs.
+Proof. exact gso_disable_retry_transparent. Qed.
+Print Assumptions C18_gso_disable_retry_transparent.
+
 (* F4, send side (history; repaired in /repo ba89367).  For the code as it was
    before the repair (UdpGso/OldModel.v) the statement was FALSE: a zero-length
    datagram after a non-empty one was merged into the previous message and
@@ -138,6 +175,12 @@ Example C18_nonvacuous_empty_datagram :
     [ ([1;1;1;2;2;2], [3]); ([], []); ([3;3;3;4;4], [3]) ] /\
   flat_map kernel_send (coalesce f4_cfg f4_bufs) = map b_data f4_bufs.
 Proof. exact fixed_coalesce_keeps_empty. Qed.
+
+(* two partial writes (3, 3, rest) of a vector of 10; an error after the first *)
+Example C18_nonvacuous_send_loop :
+  send_loop 11 [0;1;2;3;4;5;6;7;8;9] 0 [WOk 3; WOk 3; WOk 100] = ([0;1;2;3;4;5;6;7;8;9], false) /\
+  send_loop 11 [0;1;2;3;4;5;6;7;8;9] 0 [WOk 3; WErr; WOk 100] = ([0;1;2], true).
+Proof. split; vm_compute; reflexivity. Qed.
 
 (* 65 equal datagrams: the 65th starts a new message (64-segment limit) *)
 Example C18_nonvacuous_64 :
